@@ -22,3 +22,6 @@ func VerifNewServerConn(rwc io.ReadWriteCloser) *ServerConn {
 
 // VerifTokensFree reports how many request tokens are available.
 func VerifTokensFree() int { return len(RL.Chan) }
+
+// VerifShouldClose reports whether the connection decided to close after the last command.
+func (c *ServerConn) VerifShouldClose() bool { return c.closeAfterReply }
